@@ -702,16 +702,18 @@ Qed.
 
 Lemma nodup_snd_inj {A B} (l : list (A * B)) a1 a2 b : NoDup (map snd l) -> In (a1, b) l -> In (a2, b) l -> a1 = a2.
 Proof.
-  induction l as [|[x y] r IH]; cbn; [tauto|]. intros ND [E1|H1] [E2|H2]; inversion ND; subst.
+  induction l as [|[x y] r IH]; cbn; [tauto|]. intros ND H1 H2. apply NoDup_cons_iff in ND. destruct ND as [N1 N2].
+  destruct H1 as [E1|H1]; destruct H2 as [E2|H2].
   - congruence.
-  - inversion E1; subst. exfalso. apply H3. apply in_map_iff. exists (a2, b). auto.
-  - inversion E2; subst. exfalso. apply H3. apply in_map_iff. exists (a1, b). auto.
+  - inversion E1; subst. exfalso. apply N1. apply in_map_iff. exists (a2, b). auto.
+  - inversion E2; subst. exfalso. apply N1. apply in_map_iff. exists (a1, b). auto.
   - apply IH; assumption.
 Qed.
 
 Lemma NoDup_map_snd_filter {A B} (f : A * B -> bool) (l : list (A * B)) : NoDup (map snd l) -> NoDup (map snd (filter f l)).
 Proof.
-  induction l as [|x r IH]; cbn; intros H; [constructor|]. inversion H; subst. destruct (f x); cbn; [|apply IH; assumption].
+  induction l as [|x r IH]; cbn; intros H; [constructor|]. apply NoDup_cons_iff in H. destruct H as [H2 H3].
+  destruct (f x); cbn; [|apply IH; assumption].
   constructor; [|apply IH; assumption]. intros K. apply H2. apply in_map_iff in K. destruct K as [y [E Hy]].
   apply in_map_iff. exists y. split; [exact E|]. apply filter_In in Hy. tauto.
 Qed.
